@@ -55,6 +55,7 @@ func c10Offenders() []c10Offender {
 		{Name: "link-to-fifo", Nodes: []gen.NodeSpec{{Path: "mod/pipe2", Kind: "fifo", Mode: 0644}, l("to-pipe", "mod/pipe2")}, Bad: true},
 		{Name: "ignored-fifo", Nodes: []gen.NodeSpec{{Path: "tmp/pipe", Kind: "fifo", Mode: 0644}}, Rules: "tmp/\n"},
 		{Name: "ignored-escaping-link", Nodes: []gen.NodeSpec{l("tmp/esc", "../../outside-file")}, Rules: "tmp/\n"},
+		{Name: "ignored-escaping-link-last-rule-without-newline", Nodes: []gen.NodeSpec{l("tmp/esc", "../../outside-file")}, Rules: "*.log\ntmp/"},
 		{Name: "ignored-by-name-escaping-link", Nodes: []gen.NodeSpec{l("esc.lnk", "../outside-file")}, Rules: "*.lnk\n"},
 		{Name: "link-into-ignored-dir-sorted-after", Nodes: []gen.NodeSpec{f("ign/target"), l("zlink", "ign/target")}, Rules: "ign/\n", Bad: true},
 		{Name: "link-into-ignored-dir-sorted-before", Nodes: []gen.NodeSpec{f("ign/target"), l("-link", "ign/target")}, Rules: "ign/\n", Bad: true},
@@ -338,7 +339,7 @@ func init() {
 	fw.Register(&fw.Property{
 		ID:    "C10",
 		Level: "exploration",
-		Rule: "a three-package world (added package -> remote dependency, -> registry target) is built inside a chroot arena; one of 31 shapes is planted in one package (exhaustive x 3 positions) or two shapes in two packages (all ordered pairs): clean relative links and chains, links to a sibling / out of the bundle / absolute / to the manifest / dangling / looping / through the directory's own name, fifos, sockets, links to fifos, offenders hidden by ignore rules, links into ignored directories sorted before and after the directory, re-included files, rule files with negations. " +
+		Rule: "a three-package world (added package -> remote dependency, -> registry target) is built inside a chroot arena; one of 32 shapes is planted in one package (exhaustive x 3 positions) or two shapes in two packages (all ordered pairs): clean relative links and chains, links to a sibling / out of the bundle / absolute / to the manifest / dangling / looping / through the directory's own name, fifos, sockets, links to fifos, offenders hidden by ignore rules, links into ignored directories sorted before and after the directory, re-included files, rule files with negations. " +
 			"Independent expectation: the tree is materialised by the harness, reference-excluded paths are removed, remaining links are resolved physically; an offender left => the build must fail, otherwise it must succeed and every package directory of the bundle must contain only files, directories and links resolving to an existing file/directory inside it, no reference-excluded file, no .tmp-* directory; snapshot diff around the target directory. non-trivial = every case; distinct = shapes x position",
 		Assumptions: []string{"a link into an ignored (and therefore removed) directory is a dangling link of the finished package", "links to in-package directories are not part of the universe (hashing them fails today; either outcome would be acceptable)"},
 		Phases:      []*fw.Phase{single, aliased, pairs},
